@@ -24,12 +24,15 @@ func main() {
 	g.pinned()
 	g.pinnedHists()
 	g.pinnedReent()
+	g.ptrHist([]string{"bumpC", "readC", "goC", "bumpC", "goC", "fill", "readG", "goG"})
+	g.sameNameStructs()
+	g.sameNameCalls()
 	g.pinnedWitnesses()
 	g.sweepNum()
 	g.sweepStore()
 	g.sweepArity()
 	for env.Count() < env.N {
-		switch env.Rng.Intn(34) {
+		switch env.Rng.Intn(41) {
 		case 0, 1, 2:
 			g.randNum()
 		case 3, 4, 5:
@@ -52,6 +55,12 @@ func main() {
 			g.reentCase()
 		case 26, 27, 28:
 			g.mapHistWith(true)
+		case 29:
+			g.sameNameStructs()
+		case 30:
+			g.sameNameCalls()
+		case 31, 32, 33, 34:
+			g.ptrHist(nil)
 		default:
 			g.callCase()
 		}
